@@ -30,7 +30,10 @@ DEVIATIONS = [None] + list(range(-720, 721))
 
 
 def plan(tier, seed):
-    return [{"n": N[tier], "k0": i * N[tier]} for i in range(16)] + [{"kind": "threads", "n": 40, "k": k} for k in range(4 if tier == "quick" else 16)]
+    return [{"n": N[tier], "k0": i * N[tier]} for i in range(16)] + [{"kind": "threads", "n": 40, "k": k} for k in range(4 if tier == "quick" else 16)] + [{"kind": "solo", "n": 160 if tier == "quick" else 4000}]
+
+
+_checks = 0
 
 
 def _build(position: str, dt12: bytes, rng, spec, holder: dict):
@@ -106,6 +109,22 @@ def check(position, dt12, spec, rng, ctx) -> None:
     if problem:
         what = "offset" if "utcoffset" in problem or "tzinfo" in problem else "civil-fields"
         ctx.violation(f"C10:{position}:{what}", f"date-time {dt12.hex()} at {position}: {problem}", case)
+    global _checks
+    _checks += 1
+    if _checks % 5 == 0:
+        # the application's decimal context (precision, rounding) is not the library's business
+        import decimal
+
+        prec = (6, 3, 9, 4)[(_checks // 5) % 4]
+        try:
+            with decimal.localcontext(decimal.Context(prec=prec)):
+                got2 = fn(msg)
+            p3 = "no meter_datetime" if "meter_datetime" not in got2 else dlms_gen.check_datetime(got2["meter_datetime"], spec)
+        except Exception as ex:
+            p3 = f"raised {ex!r:.100}"
+        ctx.count("datetimes_decoded_again_under_a_low_precision_decimal_context")
+        if p3 and not problem:
+            ctx.violation(f"C10:{position}:depends-on-the-ambient-decimal-context", f"date-time {dt12.hex()} at {position} under decimal precision {prec}: {p3} (right in the default context)", case)
     if form == "frame" and all(hasattr(mod, n) for n in ("LlcPdu", "normalize_parsed_frame", "normalize_parsed_notification")):
         # the public two-step API: one parsed object, normalised as a frame, then its notification body on its own, then as a frame again
         try:
@@ -170,7 +189,62 @@ def run_threads(shard, ctx) -> None:
     ctx.case(f"threads{shard['k']}", True, n_threads * shard["n"])
 
 
+SOLO_SCRIPT = r"""
+import importlib, json, sys
+sys.path.insert(0, sys.argv[1])
+vendor = sys.argv[2]
+mod = importlib.import_module("han." + vendor)      # the only library module this process imports by name
+out = []
+for form, hx in json.load(sys.stdin):
+    fn = mod.decode_notification_body if form == "body" else mod.decode_frame_content
+    try:
+        d = fn(bytes.fromhex(hx)).get("meter_datetime")
+        out.append(None if d is None else [d.year, d.month, d.day, d.hour, d.minute, d.second, d.microsecond, None if d.utcoffset() is None else d.utcoffset().total_seconds() / 60])
+    except Exception as ex:
+        out.append("raised " + repr(ex)[:120])
+print(json.dumps({"results": out, "modules": sorted(m for m in sys.modules if m.startswith("han."))}))
+"""
+
+
+def run_solo(shard, ctx) -> None:
+    """An application that uses one meter only imports one decoder module: each vendor module alone in a fresh interpreter."""
+    import json
+    import subprocess
+
+    from vf import env
+
+    rng = ctx.rng(ID, "solo")
+    by_vendor: dict = {}
+    for k in range(shard["n"]):
+        position = POSITIONS[k % 8]
+        dt12, spec = dlms_gen.gen_datetime(rng)
+        vendor, form, msg, _inner = build(position, dt12, rng, spec)
+        by_vendor.setdefault(vendor, []).append((position, dt12, spec, form, msg))
+    for vendor, items in by_vendor.items():
+        p = subprocess.run([env.PYTHON, "-B", "-c", SOLO_SCRIPT, env.REPO, vendor], input=json.dumps([[f, m.hex()] for _p, _d, _s, f, m in items]), capture_output=True, text=True, timeout=300)
+        try:
+            reply = json.loads(p.stdout.strip().splitlines()[-1])
+        except Exception:
+            ctx.note_inconclusive(f"solo-import probe for {vendor} gave no result: {(p.stdout + p.stderr)[-300:]}")
+            continue
+        ctx.seen("library_modules_in_the_solo_process:" + vendor, ",".join(reply["modules"]))
+        for (position, dt12, spec, form, msg), got in zip(items, reply["results"]):
+            case = {"position": position, "dt12": dt12, "spec": spec, "vendor": vendor, "form": form, "message": msg, "solo": True}
+            ctx.count("datetimes_decoded_with_only_one_decoder_module_imported")
+            ctx.case(b"solo" + position.encode() + dt12, True)
+            if got is None or isinstance(got, str):
+                ctx.violation(f"C10:{position}:only-this-decoder-imported", f"date-time {dt12.hex()} at {position}, interpreter that imported only han.{vendor}: {got or 'no meter_datetime in the result'}", case)
+                continue
+            y, mo, d, h, mi, sec = spec["civil"]
+            want = [y, mo, d, h, mi, sec, spec["us"], None if spec["offset_min"] is None else float(spec["offset_min"])]
+            if got != want:
+                ctx.violation(f"C10:{position}:only-this-decoder-imported", f"date-time {dt12.hex()} at {position}, interpreter that imported only han.{vendor}: {got} != {want}", case)
+
+
 def run(shard, ctx):
+    if shard.get("kind") == "solo":
+        run_solo(shard, ctx)
+        return
     if shard.get("kind") == "threads":
         run_threads(shard, ctx)
         return
@@ -228,6 +302,19 @@ def replay(case, ctx):
     # the message itself is replayed, not rebuilt
     import importlib
 
+    if case.get("solo"):
+        import json
+        import subprocess
+
+        from vf import env
+
+        p = subprocess.run([env.PYTHON, "-B", "-c", SOLO_SCRIPT, env.REPO, case["vendor"]], input=json.dumps([[case["form"], case["message"].hex()]]), capture_output=True, text=True, timeout=300)
+        got = json.loads(p.stdout.strip().splitlines()[-1])["results"][0]
+        y, mo, d, h, mi, sec = case["spec"]["civil"]
+        want = [y, mo, d, h, mi, sec, case["spec"]["us"], None if case["spec"]["offset_min"] is None else float(case["spec"]["offset_min"])]
+        if got != want:
+            ctx.violation(f"C10:{case['position']}:only-this-decoder-imported", f"{got} != {want}", case)
+        return
     mod = importlib.import_module(f"han.{case['vendor']}")
     fn = mod.decode_notification_body if case["form"] == "body" else mod.decode_frame_content
     try:
